@@ -80,10 +80,27 @@ func tvErr(i int) error {
 
 // an answer kind: a named header variant with a scripted type-level verdict, or a failure
 type answer struct {
-	name string
-	act  act
-	hdr  func(u *universe) *vhdr.Header // for actHeader
-	tv   int
+	name  string
+	act   act
+	hdr   func(u *universe) *vhdr.Header // for actHeader
+	tv    int
+	extra []answer // further frames the peer writes after the first one (the head request has Amount 1)
+}
+
+// the frames the peer writes, in order
+func (a answer) frames() []answer {
+	switch a.act {
+	case actReset, actEmpty, actHang:
+		return nil
+	}
+	return append([]answer{a}, a.extra...)
+}
+
+// over-long answer: a's frame followed by more frames
+func long(name string, a answer, more ...answer) answer {
+	a.name = name
+	a.extra = more
+	return a
 }
 
 // the per-case header universe, built around the (virtual) clock reading
@@ -92,8 +109,20 @@ type universe struct {
 	trusted *vhdr.Header // height 10
 }
 
-func newUniverse(now time.Time) *universe {
-	return &universe{now: now, trusted: &vhdr.Header{Chain: mainChain, H: 10, T: now.Add(-100 * time.Second).UnixNano(), Nonce: 99}}
+// headChain: the chain of the trusted head ("" = the main chain)
+func newUniverse(now time.Time, headChain string) *universe {
+	if headChain == "" {
+		headChain = mainChain
+	}
+	return &universe{now: now, trusted: &vhdr.Header{Chain: headChain, H: 10, T: now.Add(-100 * time.Second).UnixNano(), Nonce: 99}}
+}
+
+// a header whose timestamp is d after (start of the case + clock drift): it is "from the
+// future" for a Verify that runs less than d after the start, and fine from then on
+func (u *universe) edge(h uint64, nonce uint64, d time.Duration) *vhdr.Header {
+	x := u.at(h, nonce)
+	x.T = u.now.Add(header.VerifClockDrift() + d).UnixNano()
+	return x
 }
 
 func (u *universe) at(h uint64, nonce uint64) *vhdr.Header {
@@ -138,16 +167,42 @@ var (
 		return h
 	})
 	// heights at the other end of uint64: more than 2^63 away from the others (nothing may compute with signed differences)
-	ansHuge    = hv("Huge", 0, func(u *universe) *vhdr.Header { return u.at(1<<63+100, 31) })
-	ansMax     = hv("NearMax", 0, func(u *universe) *vhdr.Header { return u.at(math.MaxUint64-5, 32) })
+	ansHuge = hv("Huge", 0, func(u *universe) *vhdr.Header { return u.at(1<<63+100, 31) })
+	ansMax  = hv("NearMax", 0, func(u *universe) *vhdr.Header { return u.at(math.MaxUint64-5, 32) })
+	// a header of the OTHER chain at the common height (quorums among other-chain answers)
+	ansWrongB = hv("WrongChainB", 0, func(u *universe) *vhdr.Header { h := u.at(12, 33); h.Chain = "b"; return h })
+	// timestamps at start+drift+d: the verdict depends on WHEN the answer is verified
+	ansEdgeA   = hv("EdgeA+5", 0, func(u *universe) *vhdr.Header { return u.edge(12, 41, 5*time.Second) })
+	ansEdgeC   = hv("EdgeCsoft+8", 1, func(u *universe) *vhdr.Header { return u.edge(15, 42, 8*time.Second) }) // once not from the future: soft (non-adjacent type failure)
+	ansEdgeZ   = hv("EdgeZ+5", 0, func(u *universe) *vhdr.Header { return u.edge(11, 43, 5*time.Second) })     // adjacent
+	ansEdge0   = hv("Edge+0", 0, func(u *universe) *vhdr.Header { return u.edge(12, 44, 0) })                  // exactly now+drift at the start: not After
+	ansEdge1   = hv("Edge+1ns", 0, func(u *universe) *vhdr.Header { return u.edge(12, 45, 1) })                // one nanosecond too early at the start
 	ansReset   = answer{name: "Reset", act: actReset}
 	ansEmpty   = answer{name: "Empty", act: actEmpty}
 	ansGarbage = answer{name: "Garbage", act: actGarbage}
 	ansBadCode = answer{name: "BadCode", act: actBadCode}
 
+	// over-long answers: the client reads one frame; what follows is never read
+	ansTwoAB    = long("Two[A,B]", ansA, ansB)              // counts as A
+	ansTwoBA    = long("Two[B,A]", ansB, ansA)              // counts as B
+	ansTwoMissA = long("Two[NotFound,A]", ansMiss, ansA)    // a failure
+	ansTwoInvA  = long("Two[Invalid,A]", ansInv, ansA)      // a failure
+	ansTwoAGarb = long("Two[A,Garbage]", ansA, ansGarbage)  // counts as A
+	ansTwoCsB   = long("Two[Csoft,B]", ansCs, ansB)         // counts as Csoft
+	ansThreeA   = long("Three[A,A,A]", ansA, ansA, ansA)    // counts as ONE A
+	ansTwoGarbA = long("Two[Garbage,A]", ansGarbage, ansA)  // a failure
+	ansTwoWrA   = long("Two[WrongChain,A]", ansWrong, ansA) // whatever WrongChain alone is
+	ansTwoZhA   = long("Two[Zhard,A]", ansZh, ansA)         // whatever Zhard alone is
+
 	small = []answer{ansA, ansB, ansCs, ansZh, ansInv, ansMiss, ansHang}
-	rich  = []answer{ansA, ansA, ansB, ansCs, ansC, ansZh, ansInv, ansMiss, ansHang, ansAs, ansBs, ansZ, ansZs, ansZp, ansZw, ansD, ansDh,
-		ansWrong, ansKnown, ansOld, ansFut, ansUnord, ansReset, ansEmpty, ansGarbage, ansBadCode, ansHuge, ansMax}
+	// the 7 kinds + an over-long answer + a header of the other chain: enumerated for <= 2 peers
+	small9 = []answer{ansA, ansB, ansCs, ansZh, ansInv, ansMiss, ansHang, ansTwoBA, ansWrongB}
+	rich   = []answer{ansA, ansA, ansB, ansCs, ansC, ansZh, ansInv, ansMiss, ansHang, ansAs, ansBs, ansZ, ansZs, ansZp, ansZw, ansD, ansDh,
+		ansWrong, ansKnown, ansOld, ansFut, ansUnord, ansReset, ansEmpty, ansGarbage, ansBadCode, ansHuge, ansMax,
+		ansWrongB, ansTwoAB, ansTwoBA, ansTwoMissA, ansTwoInvA, ansTwoAGarb, ansTwoCsB, ansThreeA, ansTwoGarbA, ansTwoWrA, ansTwoZhA,
+		ansEdgeA, ansEdgeC, ansEdgeZ, ansEdge0, ansEdge1}
+	// the answers whose verdict depends on the arrival instant, with a few that do not
+	timedAlpha = []answer{ansEdgeA, ansEdgeA, ansEdgeA, ansEdgeC, ansEdgeZ, ansEdge0, ansEdge1, ansA, ansCs, ansMiss, long("Two[EdgeA+5,B]", ansEdgeA, ansB)}
 )
 
 // ---------------------------------------------------------------- scripted peers
@@ -155,7 +210,7 @@ var (
 type script struct {
 	mu    sync.Mutex
 	acts  []answer
-	wire  [][]byte // encoded header per peer (actHeader)
+	wire  [][][]byte // per peer, per frame: the encoded header (actHeader)
 	gates []chan struct{}
 	asked []int // peer indices in the order their handlers saw the request
 	bad   []string
@@ -197,22 +252,24 @@ func (w *world) handler(i int) network.StreamHandler {
 		sc.mu.Unlock()
 		<-gate
 		switch a.act {
-		case actHeader:
-			_, _ = serde.Write(s, &pb.HeaderResponse{Body: wire, StatusCode: pb.StatusCode_OK})
-			_ = s.Close()
-		case actNotFound:
-			_, _ = serde.Write(s, &pb.HeaderResponse{StatusCode: pb.StatusCode_NOT_FOUND})
-			_ = s.Close()
-		case actGarbage:
-			_, _ = serde.Write(s, &pb.HeaderResponse{Body: []byte{0x01, 0x02, 0x03}, StatusCode: pb.StatusCode_OK})
-			_ = s.Close()
-		case actBadCode:
-			_, _ = serde.Write(s, &pb.HeaderResponse{Body: wire, StatusCode: pb.StatusCode(7)})
-			_ = s.Close()
 		case actEmpty:
 			_ = s.Close()
-		default: // actReset, actHang (released at the end of the case)
+		case actReset, actHang: // a hanging peer is released at the end of the case
 			_ = s.Reset()
+		default:
+			for k, f := range a.frames() {
+				switch f.act {
+				case actHeader:
+					_, _ = serde.Write(s, &pb.HeaderResponse{Body: wire[k], StatusCode: pb.StatusCode_OK})
+				case actNotFound:
+					_, _ = serde.Write(s, &pb.HeaderResponse{StatusCode: pb.StatusCode_NOT_FOUND})
+				case actGarbage:
+					_, _ = serde.Write(s, &pb.HeaderResponse{Body: []byte{0x01, 0x02, 0x03}, StatusCode: pb.StatusCode_OK})
+				case actBadCode:
+					_, _ = serde.Write(s, &pb.HeaderResponse{Body: wire[k], StatusCode: pb.StatusCode(7)})
+				}
+			}
+			_ = s.Close()
 		}
 	}
 }
@@ -224,10 +281,11 @@ type config struct {
 	trusted int  // how many of them are given to NewExchange as trusted peers (the first ones)
 	connect bool // connect all peers before the exchange starts (=> they are tracked); otherwise nobody is
 	// connected when Head is called (the driver disconnects everybody before each case)
-	chainID  string // ClientParameters.chainID ("" = none)
-	withHead bool   // call Head(WithTrustedHead(t))
-	maxReq   int    // maxUntrustedHeadRequests (0 = leave the default)
-	offline  int    // the last `offline` peers have no link to the client: dialling them fails at once
+	chainID   string // ClientParameters.chainID ("" = none)
+	withHead  bool   // call Head(WithTrustedHead(t))
+	maxReq    int    // maxUntrustedHeadRequests (0 = leave the default)
+	offline   int    // the last `offline` peers have no link to the client: dialling them fails at once
+	headChain string // chain of the trusted head ("" = the main chain): WithTrustedHead on another chain than the configured one
 }
 
 func newWorld(t *testing.T, cfg config) *world {
@@ -305,6 +363,7 @@ type outcome struct {
 	off   int    // peers whose dial failed at once (their zero answer arrived before anything was released)
 	ended string // how a call with a hanging peer was ended ("" = Head returned by itself)
 	now   time.Time
+	at    []time.Time // per released answer: the clock when it was released (= when the peer's goroutine handled it)
 }
 
 // runCase scripts the peers with acts (one per peer of the world), calls Head and
@@ -318,20 +377,24 @@ const (
 	endStop
 )
 
-const callTimeout = 30 * time.Second
+const callTimeout = 120 * time.Second
 
-func (w *world) runCase(cfg config, u *universe, acts []answer, prio []int, end int) outcome {
-	sc := &script{acts: acts, wire: make([][]byte, len(acts)), gates: make([]chan struct{}, len(acts))}
+// gaps: virtual time that passes before each release (nil = the clock stands still while answers arrive)
+func (w *world) runCase(cfg config, u *universe, acts []answer, prio []int, end int, gaps []time.Duration) outcome {
+	sc := &script{acts: acts, wire: make([][][]byte, len(acts)), gates: make([]chan struct{}, len(acts))}
 	tvByHash := map[string]int{}
 	for i, a := range acts {
 		sc.gates[i] = make(chan struct{})
-		if a.hdr != nil {
-			h := a.hdr(u)
-			sc.wire[i], _ = h.MarshalBinary()
-			if old, ok := tvByHash[string(h.Hash())]; ok && old != a.tv {
-				w.t.Fatalf("driver: two verdicts scripted for one header (%s)", a.name)
+		for k, f := range a.frames() {
+			sc.wire[i] = append(sc.wire[i], nil)
+			if f.hdr != nil {
+				h := f.hdr(u)
+				sc.wire[i][k], _ = h.MarshalBinary()
+				if old, ok := tvByHash[string(h.Hash())]; ok && old != f.tv {
+					w.t.Fatalf("driver: two verdicts scripted for one header (%s)", a.name)
+				}
+				tvByHash[string(h.Hash())] = f.tv
 			}
-			tvByHash[string(h.Hash())] = a.tv
 		}
 	}
 	vhdr.SetPolicy(func(_, un *vhdr.Header) error { return tvErr(tvByHash[string(un.Hash())]) })
@@ -405,6 +468,7 @@ func (w *world) runCase(cfg config, u *universe, acts []answer, prio []int, end 
 	}
 	sc.mu.Unlock()
 	released := map[int]bool{}
+	var slept time.Duration
 	for _, i := range prio {
 		if isDone() {
 			break
@@ -412,9 +476,18 @@ func (w *world) runCase(cfg config, u *universe, acts []answer, prio []int, end 
 		if !askedSet[i] || acts[i].act == actHang {
 			continue
 		}
+		if k := len(out.order); k < len(gaps) && gaps[k] > 0 {
+			time.Sleep(gaps[k]) // virtual: Head stays parked in its select
+			slept += gaps[k]
+			synctest.Wait()
+			if isDone() {
+				break
+			}
+		}
 		close(sc.gates[i])
 		released[i] = true
 		out.order = append(out.order, i)
+		out.at = append(out.at, time.Now())
 		synctest.Wait()
 	}
 	out.steps = out.off + len(out.order)
@@ -428,7 +501,7 @@ func (w *world) runCase(cfg config, u *universe, acts []answer, prio []int, end 
 		if hanging == 0 {
 			out.hung = true
 		}
-		clockMoved := !time.Now().Equal(u.now)
+		clockMoved := !time.Now().Equal(u.now.Add(slept))
 		out.ended = []string{"cancel", "deadline", "exchange stopped"}[end]
 		switch end {
 		case endStop:
@@ -456,20 +529,20 @@ func (w *world) runCase(cfg config, u *universe, acts []answer, prio []int, end 
 	}
 	synctest.Wait()
 	<-done
-	if !isDoneBeforeEnd(out, ended, u) {
+	if !isDoneBeforeEnd(out, ended, u, slept) {
 		out.err = fmt.Errorf("DRIVER: the virtual clock moved during the case")
 	}
 	sort.Ints(out.asked)
 	return out
 }
 
-// the clock must stand still while answers arrive (one clock reading per call in the model);
-// it may only move in the step that ends a call with a hanging peer
-func isDoneBeforeEnd(out outcome, ended time.Time, u *universe) bool {
+// the clock moves only where the driver moves it: by the scripted gaps before releases (every
+// answer is stamped with the reading at its release) and in the step that ends a call with a hanging peer
+func isDoneBeforeEnd(out outcome, ended time.Time, u *universe, slept time.Duration) bool {
 	if u.now.IsZero() {
 		return false
 	}
-	return ended.Equal(u.now) || ended.Equal(u.now.Add(callTimeout+time.Second))
+	return ended.Equal(u.now.Add(slept)) || ended.Equal(u.now.Add(slept+callTimeout+time.Second))
 }
 
 // ---------------------------------------------------------------- emission
@@ -522,20 +595,69 @@ func (w *world) emitCase(em *emit.Writer, reg *vhdr.Registry, cfg config, u *uni
 	if cfg.withHead {
 		tterm = reg.Term(u.trusted)
 	}
-	var arr, names []string
+	var arr, names, classNames []string
+	tans := func(at time.Time, frames []string, tv string) string {
+		return fmt.Sprintf("TAns %s %s %s", emit.Z(at.UnixNano()), emit.List(frames), tv)
+	}
 	for i := 0; i < out.off; i++ {
 		names = append(names, "Offline")
-		arr = append(arr, emit.Pair("RFail", "TVOk"))
+		classNames = append(classNames, "Offline")
+		arr = append(arr, tans(out.now, []string{"RFail"}, "TVOk")) // the dial failed when Head was called
 	}
-	for _, i := range out.order {
+	timed := false
+	for k, i := range out.order {
 		a := acts[i]
 		names = append(names, a.name)
-		switch a.act {
-		case actHeader:
-			arr = append(arr, emit.Pair("RGot "+reg.Term(a.hdr(u)), tvTerms[a.tv]))
-		default:
-			arr = append(arr, emit.Pair("RFail", "TVOk"))
+		var frames []string
+		for _, f := range a.frames() {
+			if f.act == actHeader {
+				frames = append(frames, "(RGot "+reg.Term(f.hdr(u))+")")
+			} else {
+				frames = append(frames, "RFail") // NOT_FOUND, unknown status, undecodable body
+			}
 		}
+		if a.act == actReset {
+			frames = []string{"RFail"} // the stream fails; actEmpty: no frame at all
+		}
+		tv := "TVOk"
+		if a.act == actHeader {
+			tv = tvTerms[a.tv]
+		}
+		arr = append(arr, tans(out.at[k], frames, tv))
+		off := out.at[k].Sub(out.now)
+		cn := a.name
+		if off != 0 {
+			timed = true
+			cn = fmt.Sprintf("%s@%v", a.name, off)
+		}
+		classNames = append(classNames, cn)
+		em.Count("frames written by a released peer", fmt.Sprint(len(a.frames())))
+		em.Count("arrival offset of released answers", off.String())
+		if strings.HasPrefix(a.name, "Edge") && cfg.withHead {
+			// what the real clock check says at that instant (informative; the oracle recomputes it)
+			if a.hdr(u).Time().After(out.at[k].Add(header.VerifClockDrift())) {
+				em.Count("edge answers (timestamp near now+drift)", "from the future at arrival")
+			} else {
+				em.Count("edge answers (timestamp near now+drift)", "not from the future at arrival")
+			}
+		}
+	}
+	if timed {
+		em.Count("clock", "moved between answers")
+	} else {
+		em.Count("clock", "stood still")
+	}
+	if cfg.withHead {
+		hc := "the configured chain"
+		if cfg.headChain != "" && cfg.headChain != mainChain {
+			hc = "another chain than the answers'"
+			if cfg.chainID != "" {
+				hc = "another chain than the configured chain id"
+			}
+		} else if cfg.chainID == "" {
+			hc = "main chain, no chain id configured"
+		}
+		em.Count("trusted head on", hc)
 	}
 	hang := 0
 	for _, i := range out.asked {
@@ -561,7 +683,7 @@ func (w *world) emitCase(em *emit.Writer, reg *vhdr.Registry, cfg config, u *uni
 		emit.Nat(nAsked), emit.B(out.pool), emit.List(arr), emit.Nat(out.steps), hterm, eterm)
 	sorted := append([]string(nil), names...)
 	sort.Strings(sorted)
-	class := fmt.Sprintf("%s|n=%d|hang=%d|%s", cfg.name, nAsked, hang, strings.Join(names, ","))
+	class := fmt.Sprintf("%s|n=%d|hang=%d|%s", cfg.name, nAsked, hang, strings.Join(classNames, ","))
 	descr := map[string]any{"config": cfg.name, "gen": gen, "asked": out.asked, "released": names, "hanging": hang,
 		"steps": out.steps, "err": fmt.Sprint(out.err), "errclass": ecls}
 	if out.h != nil {
@@ -625,6 +747,7 @@ func TestC09(t *testing.T) {
 		config
 		exhaustive int // enumerate every sequence over the small alphabet for this many peers (0 = no)
 		samples    int
+		timed      int // cases of the timed generator (configurations with a trusted head)
 	}
 	thorough := emit.Thorough()
 	pick := func(q, th int) int {
@@ -640,30 +763,38 @@ func TestC09(t *testing.T) {
 			ex = n
 		}
 		// no trusted head: the n trusted peers are asked
-		smp := pick(30, 400)
+		smp := pick(18, 400)
 		if n >= 4 {
-			smp = pick(80, 600)
+			smp = pick(50, 600)
 		}
-		plans = append(plans, plan{config{name: fmt.Sprintf("plain/%d", n), nPeers: n, trusted: n, connect: true, chainID: mainChain}, ex, smp})
+		plans = append(plans, plan{config{name: fmt.Sprintf("plain/%d", n), nPeers: n, trusted: n, connect: true, chainID: mainChain}, ex, smp, 0})
 		// WithTrustedHead: the n tracked peers are asked (nobody is a trusted peer), every one of them (max 6)
-		plans = append(plans, plan{config{name: fmt.Sprintf("head/%d", n), nPeers: n, trusted: 0, connect: true, withHead: true, maxReq: 6}, ex, smp})
+		plans = append(plans, plan{config{name: fmt.Sprintf("head/%d", n), nPeers: n, trusted: 0, connect: true, withHead: true, maxReq: 6}, ex, smp, pick(14, 300)})
 	}
 	plans = append(plans,
 		// no chain id configured: a header of another chain is just a header
-		plan{config{name: "plain-nochain/3", nPeers: 3, trusted: 3, connect: true}, 0, pick(30, 300)},
-		plan{config{name: "plain-nochain/4", nPeers: 4, trusted: 4, connect: true}, 0, pick(30, 300)},
-		plan{config{name: "head-chain/4", nPeers: 4, trusted: 0, connect: true, withHead: true, chainID: mainChain}, 0, pick(30, 300)},
+		plan{config{name: "plain-nochain/3", nPeers: 3, trusted: 3, connect: true}, 0, pick(30, 300), 0},
+		plan{config{name: "plain-nochain/4", nPeers: 4, trusted: 4, connect: true}, 0, pick(30, 300), 0},
+		plan{config{name: "head-chain/4", nPeers: 4, trusted: 0, connect: true, withHead: true, chainID: mainChain}, 0, pick(30, 300), 0},
 		// trusted peers are a strict subset of the tracked peers: who is asked?
-		plan{config{name: "plain-2of6", nPeers: 6, trusted: 2, connect: true, chainID: mainChain}, 0, pick(20, 200)},
-		plan{config{name: "head-2of6-max4", nPeers: 6, trusted: 2, connect: true, withHead: true}, 0, pick(40, 400)},
-		plan{config{name: "head-5-max4", nPeers: 5, trusted: 5, connect: true, withHead: true}, 0, pick(30, 300)},
-		plan{config{name: "head-4-max2", nPeers: 4, trusted: 1, connect: true, withHead: true, maxReq: 2}, 0, pick(20, 200)},
-		plan{config{name: "head-4-max3", nPeers: 4, trusted: 0, connect: true, withHead: true, maxReq: 3}, 0, pick(20, 200)},
+		plan{config{name: "plain-2of6", nPeers: 6, trusted: 2, connect: true, chainID: mainChain}, 0, pick(20, 200), 0},
+		plan{config{name: "head-2of6-max4", nPeers: 6, trusted: 2, connect: true, withHead: true}, 0, pick(40, 400), 0},
+		plan{config{name: "head-5-max4", nPeers: 5, trusted: 5, connect: true, withHead: true}, 0, pick(30, 300), 0},
+		plan{config{name: "head-4-max2", nPeers: 4, trusted: 1, connect: true, withHead: true, maxReq: 2}, 0, pick(20, 200), 0},
+		plan{config{name: "head-4-max3", nPeers: 4, trusted: 0, connect: true, withHead: true, maxReq: 3}, 0, pick(20, 200), 0},
 		// trusted peers that cannot be dialled: their zero answers arrive first
-		plan{config{name: "plain-offline-1of4", nPeers: 4, trusted: 4, connect: true, chainID: mainChain, offline: 1}, 0, pick(20, 200)},
-		plan{config{name: "plain-offline-2of5", nPeers: 5, trusted: 5, connect: true, chainID: mainChain, offline: 2}, 0, pick(20, 200)},
+		plan{config{name: "plain-offline-1of4", nPeers: 4, trusted: 4, connect: true, chainID: mainChain, offline: 1}, 0, pick(20, 200), 0},
+		plan{config{name: "plain-offline-2of5", nPeers: 5, trusted: 5, connect: true, chainID: mainChain, offline: 2}, 0, pick(20, 200), 0},
 		// nobody tracked: Head(WithTrustedHead) falls back to the trusted peers (and still verifies)
-		plan{config{name: "head-fallback-3of4", nPeers: 4, trusted: 3, connect: false, withHead: true, maxReq: 1}, 0, pick(20, 200)},
+		plan{config{name: "head-fallback-3of4", nPeers: 4, trusted: 3, connect: false, withHead: true, maxReq: 1}, 0, pick(20, 200), pick(8, 80)},
+		// the trusted head is on another chain than the configured chain id: an answer passes validateChainID
+		// or the trusted head's chain check, never both
+		plan{config{name: "head-otherchain/2", nPeers: 2, trusted: 0, connect: true, withHead: true, chainID: mainChain, headChain: "b"}, pick(0, 2), pick(25, 100), 0},
+		plan{config{name: "head-otherchain/4", nPeers: 4, trusted: 0, connect: true, withHead: true, chainID: mainChain, headChain: "b"}, 0, pick(25, 300), 0},
+		// ... and no chain id configured: the other chain's headers are the ones that verify
+		plan{config{name: "head-otherchain-nochain/2", nPeers: 2, trusted: 0, connect: true, withHead: true, headChain: "b"}, 2, pick(10, 100), 0},
+		plan{config{name: "head-otherchain-nochain/4", nPeers: 4, trusted: 0, connect: true, withHead: true, headChain: "b"}, 0, pick(30, 400), 0},
+		plan{config{name: "head-otherchain-nochain/5", nPeers: 5, trusted: 0, connect: true, withHead: true, headChain: "b", maxReq: 6}, 0, pick(20, 300), 0},
 	)
 	for _, pl := range plans {
 		cfg := pl.config
@@ -673,8 +804,9 @@ func TestC09(t *testing.T) {
 				old = p2p.VerifSetMaxUntrustedHeadRequests(cfg.maxReq)
 			}
 			w := newWorld(t, cfg)
+			gapChoice := []time.Duration{0, 0, 2 * time.Second, 3 * time.Second, 5 * time.Second, 5*time.Second - 1}
 			run := func(acts []answer, prio []int, gen string) {
-				u := newUniverse(time.Now())
+				u := newUniverse(time.Now(), cfg.headChain)
 				end := endCancel
 				switch {
 				case gen == "exchange-stopped":
@@ -682,25 +814,42 @@ func TestC09(t *testing.T) {
 				case rng.Chance(35):
 					end = endDeadline
 				}
-				out := w.runCase(cfg, u, acts, prio, end)
+				// virtual time passes between the answers: always for the timed generator, in a third of the samples
+				var gaps []time.Duration
+				if gen == "timed" || (gen == "sampled" && rng.Chance(33)) {
+					for range acts {
+						gaps = append(gaps, gapChoice[rng.Intn(len(gapChoice))])
+					}
+				}
+				out := w.runCase(cfg, u, acts, prio, end, gaps)
 				w.emitCase(em, reg, cfg, u, acts, out, gen)
 			}
 			if pl.exhaustive > 0 || cfg.nPeers == 0 {
-				seqs(small, cfg.nPeers, func(acts []answer) { run(acts, identity(cfg.nPeers), "exhaustive") })
+				alpha := small
+				if cfg.nPeers <= 2 {
+					alpha = small9
+				}
+				seqs(alpha, cfg.nPeers, func(acts []answer) { run(acts, identity(cfg.nPeers), "exhaustive") })
 			}
 			if cfg.nPeers > 0 {
 				for s := 0; s < pl.samples; s++ {
 					acts := make([]answer, cfg.nPeers)
 					// a population that mostly agrees with a few deviants, two camps, or a uniform mix
 					mode := rng.Intn(10)
-					camp := []answer{ansA, ansB, ansCs, ansC, ansAs, ansZs}[rng.Intn(6)]
+					camp := []answer{ansA, ansB, ansCs, ansC, ansAs, ansZs, ansTwoBA, ansThreeA}[rng.Intn(8)]
+					major := ansA
+					if cfg.headChain != "" {
+						// the trusted head is on the other chain: the populations are other-chain headers
+						major = ansWrongB
+						camp = []answer{ansWrong, ansWrongB, ansA, long("Two[WrongChainB,A]", ansWrongB, ansA)}[rng.Intn(4)]
+					}
 					for i := range acts {
 						switch {
 						case mode < 4 && !rng.Chance(35):
-							acts[i] = ansA
+							acts[i] = major
 						case mode >= 4 && mode < 7 && !rng.Chance(30):
 							if rng.Chance(55) {
-								acts[i] = ansA
+								acts[i] = major
 							} else {
 								acts[i] = camp
 							}
@@ -714,6 +863,22 @@ func TestC09(t *testing.T) {
 						prio[i], prio[j] = prio[j], prio[i]
 					}
 					run(acts, prio, "sampled")
+				}
+			}
+			if cfg.nPeers >= 2 && cfg.withHead && cfg.headChain == "" {
+				// answers whose timestamp sits at now+drift+d, released while virtual time advances: whether
+				// an answer counts depends on the instant ITS Verify runs
+				for s := 0; s < pl.timed; s++ {
+					acts := make([]answer, cfg.nPeers)
+					for i := range acts {
+						acts[i] = timedAlpha[rng.Intn(len(timedAlpha))]
+					}
+					prio := identity(cfg.nPeers)
+					for i := len(prio) - 1; i > 0; i-- {
+						j := rng.Intn(i + 1)
+						prio[i], prio[j] = prio[j], prio[i]
+					}
+					run(acts, prio, "timed")
 				}
 			}
 			if cfg.nPeers >= 2 && cfg.offline == 0 {
@@ -749,7 +914,8 @@ func TestC09(t *testing.T) {
 	}
 	em.Exhaustive = true
 	em.Extra["exhaustive_subdomain"] = fmt.Sprintf("every sequence (= every multiset in every arrival order) over the %d-kind alphabet {A, B (conflicting, same height), higher+soft-failing, "+
-		"adjacent+hard-failing, invalid, NOT_FOUND, hanging} for 0..%d peers, without and with a trusted head", len(small), pick(3, 4))
+		"adjacent+hard-failing, invalid, NOT_FOUND, hanging} for 3..%d peers and over the %d-kind alphabet (+ over-long answer [B,A], + a header of the other chain) for 0..2 peers, "+
+		"without and with a trusted head, and (2 peers) with a trusted head on the other chain", len(small), pick(3, 4), len(small9))
 	if err := em.Flush(); err != nil {
 		t.Fatal(err)
 	}
